@@ -183,6 +183,10 @@ fn fixed_empty(ctx: &Ctx) -> CaseInfo {
     eval(&Case { before: vec![], coll: vec![], body: vec![Goal::Fail], after: vec![], fd: false }, ctx)
 }
 
+pub fn run_family_pub(bytes: &[u8], ctx: &Ctx) -> CaseInfo {
+    run_family(bytes, ctx)
+}
+
 pub fn def() -> PropertyDef {
     PropertyDef {
         id: "C12",
